@@ -11,7 +11,10 @@ import (
 	"verif/world"
 )
 
-type c07mon struct{ stats *sim.Stats }
+type c07mon struct {
+	stats *sim.Stats
+	level map[int]string // browser → "half" (uid established only by a remember cookie) | "full"
+}
 
 func pidClass(pid string) string {
 	switch {
@@ -73,6 +76,7 @@ func (m c07mon) Check(s *sim.Sim, st *sim.Step) []*sim.Violation {
 		return nil
 	}
 	var vs []*sim.Violation
+	vs = append(vs, m.authLevel(s, st)...)
 	cin, uidIn := rec.CookiesIn["rm"], rec.SessIn["uid"]
 	puts := rmPuts(rec)
 	rotated := false
@@ -208,6 +212,38 @@ func passwordChanged(rec *world.Rec, pid string) bool {
 
 func (m c07mon) Post(s *sim.Sim, st *sim.Step) []*sim.Violation { return nil }
 
+// authLevel keeps the ledger of HOW each browser's session came to name its user and checks that a
+// session established only by a remember cookie keeps its half-auth mark until a login of that
+// account completes. Called from Check (ledger as before the request, request already executed).
+func (m c07mon) authLevel(s *sim.Sim, st *sim.Step) []*sim.Violation {
+	rec := st.Rec
+	b := st.Act.B
+	if st.Act.Kind == "dropsid" {
+		delete(m.level, b)
+		return nil
+	}
+	if rec.Kind != "http" || !s.RememberActive() {
+		return nil
+	}
+	uid := rec.SessOut["uid"]
+	if uid == "" {
+		delete(m.level, b)
+		return nil
+	}
+	if sim.SessPutAny(rec, "uid", uid) {
+		switch {
+		case justifyFlow(s, st, uid) != "":
+			m.level[b] = "full"
+		case rememberJustifies(s, st, uid):
+			m.level[b] = "half"
+		}
+	}
+	if m.level[b] == "half" && rec.SessOut["halfauth"] == "" && flushed(rec) && rec.FaultsFired == 0 {
+		return []*sim.Violation{vio("C07", "half-auth-mark-lost-without-full-login|"+st.Act.Kind, "the session of b%d names %q only on the strength of a remember cookie, yet after %s %s its half-auth mark is gone although no login of that account completed in it", b, uid, rec.Method, rec.Target)}
+	}
+	return nil
+}
+
 func (m c07mon) Sig(s *sim.Sim, st *sim.Step) string {
 	rec := st.Rec
 	if rec.Kind != "http" {
@@ -337,7 +373,7 @@ func init() {
 				c.Stats.Inconclusive = append(c.Stats.Inconclusive, "world: "+err.Error())
 				return
 			}
-			sim.RunHistory(s, c07Profile, []sim.Monitor{c07mon{c.Stats}}, c.Stats, unit)
+			sim.RunHistory(s, c07Profile, []sim.Monitor{c07mon{stats: c.Stats, level: map[int]string{}}}, c.Stats, unit)
 		},
 		Floors: func(t string) map[string]int {
 			return map[string]int{"rotation:plain-pid": 30, "dead-cookie-presented:spent": 20, "dead-cookie-presented:unknown": 20, "dead-cookie-presented:revoked": 3,
